@@ -57,9 +57,11 @@ def interface_gaps():
     return gaps
 
 
-def one_statement_kernel(kind, mn, n, binding):
-    """source of a kernel of `kind` whose body is one use of the wrapper; operands are untyped
-    kernel parameters, attributes get a literal of their declared type"""
+def one_statement_kernels(kind, mn, n, binding):
+    """sources of kernels of `kind` whose body is one use of the wrapper, in every argument form: operands are untyped
+    kernel parameters; attributes get a literal of their declared type - (a) only the required ones, (b) all of them by
+    keyword, (c) all of them positionally in declaration order.  -> [(form, src)] ([] if no literal can be synthesised)"""
+    import dataclasses
     from kirin.decl import fields
     f = fields(binding.parent)
     params, args = [], []
@@ -67,20 +69,26 @@ def one_statement_kernel(kind, mn, n, binding):
         p = f"a{i}"
         params.append(p)
         args.append(f"({p},)" if af.group else p)
+    req, opt = [], []
     for an, at in f.attributes.items():
-        import dataclasses
-        if at.default is not dataclasses.MISSING or at.default_factory is not None:
-            continue
-        lit = {"str": '"traps"', "float": "1.0", "int": "1", "bool": "True"}.get(getattr(at.annotation, "__name__", ""), None)
+        lit = {"str": '"traps"', "float": "1.5", "int": "1", "bool": "True"}.get(getattr(at.annotation, "__name__", ""), None)
+        has_default = at.default is not dataclasses.MISSING or at.default_factory is not None
         if lit is None:
-            return None
-        args.append(f"{an}={lit}")
-    call = f"{mn}.{n}({', '.join(args)})"
-    if f.regions:
-        body = f"    with {call}:\n        ...\n"
-    else:
-        body = f"    {call}\n"
-    return f"@{kind}\ndef main({', '.join(params)}):\n{body}"
+            if has_default:
+                continue
+            return []
+        (opt if has_default else req).append((an, lit))
+    forms = [("required arguments only", args + [f"{an}={lit}" for an, lit in req])]
+    if opt:
+        forms.append(("every attribute by keyword", args + [f"{an}={lit}" for an, lit in req + opt]))
+        if not f.regions:
+            forms.append(("every attribute positionally", args + [lit for an, lit in req + opt]))
+    out = []
+    for form, a in forms:
+        call = f"{mn}.{n}({', '.join(a)})"
+        body = f"    with {call}:\n        ...\n" if f.regions else f"    {call}\n"
+        out.append((form, f"@{kind}\ndef main({', '.join(params)}):\n{body}"))
+    return out
 
 
 def try_define(src):
@@ -129,26 +137,29 @@ def run(ctx):
     acc_rows, unsynth = [], []
     for (mn, n, b, d), c in zip(ws, wcat):
         for ki, kind in enumerate(KINDS):
-            src = one_statement_kernel(kind, mn, n, b)
+            variants = one_statement_kernels(kind, mn, n, b)
             want = POLICY[c][ki]
-            if src is None:
+            if not variants:
                 unsynth.append(f"{mn}.{n}")
                 continue
-            got, why = try_define(src)
-            ctx.evaluations += 1
-            ctx.nt((mn, n, kind))
-            ctx.hist("outcome", f"{kind}:{got}")
-            acc_rows.append((c, kind, got == "accepted"))
             in_group = c in gcats[kind]
-            if (got == "accepted") != want:
-                if got == "rejected" and want and in_group and why.startswith("TypeCheckError"):
-                    # the dialect is in the group; the rejection comes from argument synthesis
-                    ctx.hist("outcome", "acceptance side not exercised (argument synthesis)")
-                    ctx.extra.setdefault("acceptance_not_exercised", []).append(f"{kind}: {mn}.{n}: {why}")
-                    continue
-                ctx.fail({"wrapper": f"{mn}.{n}", "kind": kind, "got": got, "documented": "accept" if want else "reject"},
-                         {"src": src, "expected": "accepted" if want else "rejected"},
-                         f"@{kind} kernel using {mn}.{n} (dialect {d}) was {got} ({why}); the documented vocabulary says {'accept' if want else 'reject'}")
+            for form, src in variants:
+                got, why = try_define(src)
+                ctx.evaluations += 1
+                ctx.nt((mn, n, kind, form))
+                ctx.hist("outcome", f"{kind}:{got}")
+                if form == "required arguments only":
+                    acc_rows.append((c, kind, got == "accepted"))
+                if (got == "accepted") != want:
+                    # @move and @kernel verify operand types, so an untyped operand may be refused there for typing reasons;
+                    # @tweezer does not verify types: a TypeCheckError from it is a refusal of the statement
+                    if got == "rejected" and want and in_group and why.startswith("TypeCheckError") and kind != "tweezer" and form == "required arguments only":
+                        ctx.hist("outcome", "acceptance side not exercised (argument synthesis)")
+                        ctx.extra.setdefault("acceptance_not_exercised", []).append(f"{kind}: {mn}.{n}: {why}")
+                        continue
+                    ctx.fail({"wrapper": f"{mn}.{n}", "kind": kind, "got": got, "documented": "accept" if want else "reject", "form": form},
+                             {"src": src, "expected": "accepted" if want else "rejected"},
+                             f"@{kind} kernel using {mn}.{n} ({form}; dialect {d}) was {got} ({why}); the documented vocabulary says {'accept' if want else 'reject'}")
             if mn == "schedule" and kind == "move" and len(ctx.samples) < 2:
                 ctx.sample({"kernel": src, "outcome": got})
     if unsynth:
